@@ -338,10 +338,24 @@ func expandInto(b []byte, kind int, seed uint64, p1, p2 int) {
 		// p1 sets the share of accented letters (0..100 %), p2 the share of words unknown to any dictionary
 		hi := p1 % 101
 		unk := p2 % 101
+		vocab := 0
+		if p2 > 100 {
+			// vocabulary mode: (p2-100)*400 synthetic words (400..62000), each used again and again
+			unk, vocab = 0, (p2-100)*400
+		}
 		var sb bytes.Buffer
 		for sb.Len() < n {
 			w := []byte(words[r.intn(len(words))])
-			if r.intn(100) < unk {
+			if vocab > 0 {
+				// word number k of the synthetic vocabulary: 3..9 letters derived from k
+				k := uint64(r.intn(vocab))
+				h := (k + 1) * 0x9E3779B97F4A7C15
+				w = make([]byte, 3+int(h>>60)%7)
+				for i := range w {
+					h = h*6364136223846793005 + 1442695040888963407
+					w[i] = byte('a' + (h>>33)%26)
+				}
+			} else if r.intn(100) < unk {
 				w = make([]byte, 2+r.intn(9))
 				for i := range w {
 					w[i] = byte('a' + r.intn(26))
